@@ -13,6 +13,7 @@ pub mod c09;
 pub mod c11;
 pub mod c12;
 pub mod c13;
+pub mod c14;
 pub mod c15;
 pub mod c16;
 pub mod common;
@@ -38,6 +39,7 @@ pub fn run(prop: &str, rep: &Report) {
         "C11" => c11::run(rep),
         "C12" => c12::run(rep),
         "C13" => c13::run(rep),
+        "C14" => c14::run(rep),
         "C15" => c15::run(rep),
         "C16" => c16::run(rep),
         _ => rep.machinery_error(format!("no check for {prop}")),
@@ -54,6 +56,7 @@ pub fn replay(case: &Value) -> Vec<Violation> {
         "narrow" => c15::replay(case),
         "c09" => c09::replay(case),
         "c03" => c03::replay(case),
+        "c14_schedule" | "c14_history" | "c14_global" => c14::replay(case),
         "c11_issuer" | "c11_holder" => c11::replay(case),
         "c04" | "c04_text" => c04::replay(case),
         "c08" => c08::replay(case),
@@ -68,6 +71,7 @@ pub fn replay(case: &Value) -> Vec<Violation> {
 pub fn worker(args: &[String]) {
     match args.first().map(|s| s.as_str()) {
         Some("C16") => c16::worker(&args[1..]),
+        Some("C14") => c14::worker(&args[1..]),
         _ => {
             eprintln!("unknown worker kind");
             std::process::exit(2);
